@@ -323,6 +323,10 @@ def _evaluate(case):
                 raise C.MachineryError("recording not deterministic for %s/%s: %s" % (scenario, op, d))
             events = rec["events"]
             K = len(events)
+            if K < 2 and op == "move_occupied" and rec["rc"] == 0:
+                # every destination is occupied: an implementation may refuse each file before it issues any mutating
+                # call - then there is no position to enumerate (the refusal itself is C18's subject)
+                return {"violations": [], "evaluations": 1, "nontrivial": None, "outcome": "refused_before_any_mutating_call"}
             if K < 2:
                 raise C.MachineryError("history too short for %s/%s: %r" % (scenario, op, events))
             errnos = ["EIO", "EXDEV"] if tier == "quick" else ["EIO", "ENOSPC", "EXDEV", "EPERM", "EOPNOTSUPP"]
